@@ -68,6 +68,17 @@ class Built:
         raise ValueError(f"bad blueprint value {v!r}")
 
 
+_TOKEN = []
+
+
+def process_token():
+    if not _TOKEN:
+        from experimaestro.tokens import ProcessCounterToken
+
+        _TOKEN.append(ProcessCounterToken(3))
+    return _TOKEN[0]
+
+
 def _shuffled(rng, items):
     items = list(items)
     rng.shuffle(items)
@@ -109,7 +120,16 @@ def build(bp, variant: Optional[dict] = None, classes: Optional[dict] = None, su
                 for a in args:
                     (later if rng.randrange(100) < frac else ctor).append(a)
                 args = ctor
-        obj = cls(**{k: B.decode(v) for k, v in args})
+        kwargs = {k: B.decode(v) for k, v in args}
+        if node.get("tagged"):
+            # neutral edit of C02: the first scalar argument is passed as tag(value)
+            from experimaestro import tag
+
+            for k, v in kwargs.items():
+                if isinstance(v, (int, str)) and not isinstance(v, bool):
+                    kwargs[k] = tag(v)
+                    break
+        obj = cls(**kwargs)
         for k, v in later:
             setattr(obj, k, B.decode(v))
         B.objs.append(obj)
@@ -127,8 +147,44 @@ def build(bp, variant: Optional[dict] = None, classes: Optional[dict] = None, su
             init = [B.objs[i] for i in node["submit"].get("init", [])]
             if init:
                 kw["init_tasks"] = init
+            if node["submit"].get("tokens"):
+                obj.add_dependencies(process_token().dependency(node["submit"]["tokens"]))
             B.outs[idx] = obj.submit(**kw)
     return B
+
+
+def build_checked(ctx, bp, what="canonical build", **kw):
+    """build(); RecursionError is passed on (known limitation reported by C13); any other
+    exception on a blueprint that is valid by construction is reported as a violation"""
+    try:
+        return build(bp, **kw)
+    except RecursionError:
+        raise
+    except Exception as e:
+        import traceback
+
+        tb = traceback.extract_tb(e.__traceback__)
+        site = next((f"{Path(f.filename).name}:{f.name}" for f in reversed(tb) if "experimaestro" in f.filename), "?")
+        ctx.violation(f"build:raises:{type(e).__name__}@{site}", f"building a valid configuration graph ({what}) raised {type(e).__name__}: {e}")
+        return None
+
+
+def identifiers(ctx, B, what="canonical build"):
+    """Hex identifiers of all nodes; an exception while computing the identifier of a
+    configuration the API accepted is a violation (identifier not a function of content)"""
+    out = []
+    for i, o in enumerate(B.objs):
+        try:
+            out.append(o.__xpm__.identifier.all.hex())
+        except RecursionError:
+            raise
+        except Exception as e:
+            ctx.violation(
+                f"identifier:raises:{type(e).__name__}",
+                f"computing the identifier of node {i} ({B.bp['nodes'][i]['cls']}, {what}) raised {type(e).__name__}: {e}",
+            )
+            out.append(None)
+    return out
 
 
 # ----------------------------------------------------------------------------------
@@ -567,6 +623,7 @@ def blueprints(
     tags=True,
     weights=None,
     root_task=False,
+    meta_pct=14,
 ):
     sp = spec()
     model = GenModel()
@@ -584,7 +641,7 @@ def blueprints(
             cls, args = "Leaf", [["i", draw(INTS)]]
         node = {"cls": cls, "args": args, "meta": None, "tags": [], "pre": [], "patches": [], "submit": None}
         s = sp[cls]
-        if meta and not s["task"] and chance(draw, 14):
+        if meta and not s["task"] and chance(draw, meta_pct):
             node["meta"] = draw(st.booleans())
         if tags and chance(draw, 12):
             node["tags"] = [[draw(st.sampled_from(["t1", "t2"])), draw(st.one_of(st.integers(0, 3), st.sampled_from(["x", "y"])))]]
